@@ -166,3 +166,156 @@ def check_bay(led):
 
 def body(led):
     check_bay(led)
+    check_constructors(led)
+
+
+# ----------------------------------------------------------------------------------------------------------------------------
+def check_constructors(led):
+    """StiffPanelBay.add_panel / add_bladestiff1d / add_bladestiff2d / add_tstiff2d: the component that is created carries the arguments
+    given (each optional argument falls back to the bay's own value only when it is not given; a single ply thickness / material is
+    expanded to one entry per ply of ITS laminate), sits between the two skin panels adjacent to its position, and is registered in the
+    lists the assembly methods run over.  Real constructors of Panel and of the stiffener classes; laminates through the C01 contract."""
+    from .py_stiffeners import _with_plies, MAT
+    from ..kharness import FLAG_NAMES
+    from ..pysym import to_z3
+    it, calls = py_panel.mk()
+    _with_plies(it)
+    bmod = it.module('compmech.stiffpanelbay.stiffpanelbay')
+    it.np.isclose = lambda x, y, **k: pysym.compare('==', x if isinstance(x, P) else P.const(x), y if isinstance(y, P) else P.const(y))
+    it.algebraic_minmax = True
+
+    def new_bay():
+        bay = it.call(bmod.g['StiffPanelBay'], [], {})
+        bay.attrs.update(a=real('a'), b=real('b'), m=integer('m'), n=integer('n'), mu=real('mu_bay'), r=None, alphadeg=None,
+                         model='plate_clt_donnell_bardell', stack=[real('th_bay')], plyt=real('t_bay'),
+                         laminaprop=tuple(real(x + '_bay') for x in MAT))
+        for f in FLAG_NAMES:
+            bay.attrs[f] = real(f + '_bay')
+        return bay
+    it.facts += [to_z3(real('b')) > 0, to_z3(real('ycut')) > 0, to_z3(real('ycut')) < to_z3(real('b')), to_z3(real('a')) > 0]
+
+    def same(g, w):
+        if isinstance(w, (list, tuple)):
+            return isinstance(g, (list, tuple)) and len(g) == len(w) and all(same(x, y) for x, y in zip(g, w))
+        if isinstance(w, P) or isinstance(g, P):
+            try:
+                return peq(g, w)
+            except Exception:
+                return False
+        return g == w or g is w
+
+    # ---- add_panel
+    func = BF + 'add_panel'
+    led.function(func)
+    given = dict(stack=[real('th_p0'), real('th_p1')], plyt=real('t_p'), plyts=[real('t_p0'), real('t_p1')], laminaprop=tuple(real(x + '_p') for x in MAT),
+                 laminaprops=[tuple(real(x + '_p%d' % i) for x in MAT) for i in range(2)], mu=real('mu_p'), model='plate_clt_donnell_bardell_w')
+    for case in ('defaults', 'everything given', 'extra attribute'):
+        def run():
+            bay = new_bay()
+            kw = dict(y1=real('ycut'), y2=real('b'))
+            if case == 'everything given':
+                kw.update(given)
+            if case == 'extra attribute':
+                kw.update(Nxx_cte=real('Nxx_extra'))
+            p = it.call(it.getattr(bay, 'add_panel'), [], kw)
+            return bay, p
+        for path, out in it.explore(run):
+            name = '%s[%s]' % (func, case)
+            if out[0] != 'return':
+                report(led, name + '/no-exception', func, ['raises %s%s' % (out[1].tname, tuple(str(x)[:80] for x in out[1].eargs))], signature='raise:' + out[1].tname)
+                continue
+            bay, p = out[1]
+            probs = []
+            for k_ in ('a', 'b', 'm', 'n', 'r', 'alphadeg') + tuple(FLAG_NAMES):
+                if not same(p.attrs.get(k_), bay.attrs.get(k_)):
+                    probs.append('panel.%s = %s, the bay has %s' % (k_, pycheck.describe(p.attrs.get(k_)), pycheck.describe(bay.attrs.get(k_))))
+            if not same(p.attrs.get('y1'), real('ycut')) or not same(p.attrs.get('y2'), real('b')):
+                probs.append('panel.y1, y2 = %s, %s' % (pycheck.describe(p.attrs.get('y1')), pycheck.describe(p.attrs.get('y2'))))
+            for k_ in ('stack', 'plyt', 'plyts', 'laminaprop', 'laminaprops', 'mu', 'model'):
+                w = given[k_] if case == 'everything given' else bay.attrs.get(k_)
+                if not same(p.attrs.get(k_), w):
+                    probs.append('panel.%s = %s, expected %s (%s)' % (k_, pycheck.describe(p.attrs.get(k_)), pycheck.describe(w), 'the argument' if case == 'everything given' else 'the value of the bay'))
+            if case == 'extra attribute' and not same(p.attrs.get('Nxx_cte'), real('Nxx_extra')):
+                probs.append('the extra keyword is not set on the panel')
+            if not (bay.attrs['panels'] and bay.attrs['panels'][-1] is p):
+                probs.append('the panel is not appended to bay.panels')
+            report(led, name, func, probs, signature='add_panel:' + case)
+
+    # ---- stiffeners
+    for kind, meth, lst in (('blade1d', 'add_bladestiff1d', 'bladestiff1ds'), ('blade2d', 'add_bladestiff2d', 'bladestiff2ds'), ('t2d', 'add_tstiff2d', 'tstiff2ds')):
+        func = BF + meth
+        led.function(func)
+        for form, mu_given in itertools.product(('single thickness and material', 'per-ply lists'), (False, True)):
+            bstack = [real('thb0'), real('thb1'), real('thb2')]
+            fstack = [real('thf0'), real('thf1')]
+            matb, matf = tuple(real(x + '_b') for x in MAT), tuple(real(x + '_f') for x in MAT)
+            kw = dict(ys=real('ycut'), bb=real('bb'), bf=real('bf'), bstack=bstack, fstack=fstack)
+            if form.startswith('single'):
+                kw.update(bplyt=real('tb'), blaminaprop=matb, fplyt=real('tf'), flaminaprop=matf)
+                want = dict(bplyts=[real('tb')] * 3, blaminaprops=[matb] * 3, fplyts=[real('tf')] * 2, flaminaprops=[matf] * 2)
+            else:
+                want = dict(bplyts=[real('tb%d' % i) for i in range(3)], blaminaprops=[tuple(real(x + '_b%d' % i) for x in MAT) for i in range(3)],
+                            fplyts=[real('tf%d' % i) for i in range(2)], flaminaprops=[tuple(real(x + '_f%d' % i) for x in MAT) for i in range(2)])
+                kw.update(want)
+            if mu_given:
+                kw['mu'] = real('mu_stiffener')
+            if kind == 'blade2d':
+                kw.update(mf=integer('mf'), nf=integer('nf'))
+            if kind == 't2d':
+                kw.update(mb=integer('mb'), nb=integer('nb'), mf=integer('mf'), nf=integer('nf'))
+
+            def run():
+                bay = new_bay()
+                p1 = it.call(it.getattr(bay, 'add_panel'), [], dict(y1=P.const(0), y2=real('ycut')))
+                p2 = it.call(it.getattr(bay, 'add_panel'), [], dict(y1=real('ycut'), y2=real('b')))
+                s = it.call(it.getattr(bay, meth), [], dict(kw))
+                return bay, p1, p2, s
+            for path, out in it.explore(run):
+                name = '%s[%s,mu %s]' % (func, form, 'given' if mu_given else 'from the bay')
+                if out[0] != 'return':
+                    if out[1].tname == 'RuntimeError' and 'a/b > 10' in ''.join(str(x) for x in out[1].eargs):
+                        continue          # documented refusal of slender T-stiffener components with low series orders
+                    report(led, name + '/no-exception', func, ['raises %s%s' % (out[1].tname, tuple(str(x)[:80] for x in out[1].eargs))], signature='raise:' + out[1].tname)
+                    continue
+                bay, p1, p2, s = out[1]
+                probs = []
+                a_ = s.attrs
+                if 'mu' in a_ and not same(a_.get('mu'), real('mu_stiffener') if mu_given else bay.attrs['mu']):
+                    probs.append('stiffener.mu = %s' % pycheck.describe(a_.get('mu')))
+                if a_.get('panel1') is not p1 or a_.get('panel2') is not p2:
+                    probs.append('panel1 / panel2 are not the skin panels that end / start at the stiffener position')
+                if a_.get('bay') is not bay:
+                    probs.append('stiffener.bay is not the bay')
+                for k_, w in (('ys', real('ycut')), ('bb', real('bb')), ('bstack', bstack), ('bplyts', want['bplyts']), ('blaminaprops', want['blaminaprops'])):
+                    if k_ in a_ and not same(a_[k_], w):
+                        probs.append('stiffener.%s = %s, expected %s' % (k_, pycheck.describe(a_[k_]), pycheck.describe(w)))
+                # the laminate definitions must arrive at the component panels / beam constants
+                comp = {'base': a_.get('base'), 'flange': a_.get('flange')}
+                for lab, stack_, plyts_, props_ in (('base', bstack, want['bplyts'], want['blaminaprops']), ('flange', fstack, want['fplyts'], want['flaminaprops'])):
+                    c_ = comp[lab]
+                    if c_ is None:
+                        if not (kind == 'blade1d' and lab == 'flange'):
+                            probs.append('no %s panel' % lab)
+                        continue
+                    for k_, w in (('stack', stack_), ('plyts', plyts_), ('laminaprops', props_), ('mu', real('mu_stiffener') if mu_given else bay.attrs['mu'])):
+                        if not same(c_.attrs.get(k_), w):
+                            probs.append('%s.%s = %s, expected %s' % (lab, k_, pycheck.describe(c_.attrs.get(k_)), pycheck.describe(w)))
+                if kind == 'blade1d':
+                    for k_, w in (('fstack', fstack), ('fplyts', want['fplyts']), ('flaminaprops', want['flaminaprops']), ('bf', real('bf'))):
+                        if not same(a_.get(k_), w):
+                            probs.append('stiffener.%s = %s, expected %s' % (k_, pycheck.describe(a_.get(k_)), pycheck.describe(w)))
+                if kind in ('blade2d', 't2d'):
+                    fl = comp['flange']
+                    if fl is not None and not (same(fl.attrs.get('m'), integer('mf')) and same(fl.attrs.get('n'), integer('nf')) and same(fl.attrs.get('b'), real('bf'))):
+                        probs.append('flange orders / width are not mf, nf, bf')
+                if kind == 't2d':
+                    ba = comp['base']
+                    if ba is not None and not (same(ba.attrs.get('m'), integer('mb')) and same(ba.attrs.get('n'), integer('nb')) and same(ba.attrs.get('b'), real('bb'))):
+                        probs.append('base orders / width are not mb, nb, bb')
+                if not (bay.attrs[lst] and bay.attrs[lst][-1] is s and bay.attrs['stiffeners'] and bay.attrs['stiffeners'][-1] is s):
+                    probs.append('the stiffener is not registered in bay.%s and bay.stiffeners' % lst)
+                others = [l_ for l_ in ('bladestiff1ds', 'bladestiff2ds', 'tstiff2ds') if l_ != lst and bay.attrs[l_]]
+                if others:
+                    probs.append('the stiffener is also registered in %s' % others)
+                report(led, name, func, probs, signature='%s:%s' % (meth, ';'.join(probs)[:100]))
+    led.solver_time('z3-feasibility', it.solver_time)
